@@ -252,7 +252,14 @@ def closed_loop(seed=0, trials=3, elongated=None):
             finder = sfm.SourceFinder(log=logging.getLogger('c01'))
             srcs = finder.find_sources_in_image(fn, rms=rmsv, bkg=0.0, nonegative=False, cores=1, innerclip=clips[0], outerclip=clips[1])
             if len(srcs) != 1:
-                return True, 'component-count', '%d components for one injected Gaussian (%s, peak %.2f)' % (len(srcs), proj, peak)
+                # independent look at the injected image: how many pixels are maxima of their 3x3 neighbourhood above the flood clip?
+                # (a sampled ridge at an angle to the pixel axes can have more than one, although the Gaussian has a single maximum)
+                ai = abs(img)
+                nmax = int(sum(1 for i in range(1, N - 1) for j in range(1, N - 1) if ai[i, j] > clips[1] * rmsv and ai[i, j] >= ai[i - 1:i + 2, j - 1:j + 2].max()))
+                cls = 'component-count'
+                if nmax > 1 and len(srcs) == nmax:
+                    cls = 'component-per-pixel-maximum'
+                return True, cls, '%d components for one injected Gaussian (%s, peak %.2f, a %.2f", b %.2f", pa %.1f, %.2f"/pixel; the sampled image has %d pixel(s) that are 3x3 maxima)' % (len(srcs), proj, peak, a, b, pa, scale * 3600, nmax)
             g = srcs[0]
             px = helper.sky2pix((g.ra, g.dec))
             dpix = math.hypot(px[0] - (r0 + 1), px[1] - (c0 + 1))
@@ -406,6 +413,23 @@ def run(rep):
         rep.validated_runs(1)
         if bad:
             rep.finding('C01/K-closed-loop/%s:%s' % (name, cls), dict(seed=sd, special=sp), detail)
+    # orientation x axis-ratio sweep (every 15 degrees); thorough: more ratios and positions, and many random injections
+    ratios, seeds = ((1.5, 2.5, 3.0, 3.5, 4.0), (5, 6, 7, 8, 9)) if thorough else ((1.5, 2.5, 3.5), (5, 6, 7))
+    for pa_ in range(-90, 90, 15):
+        for ratio in ratios:
+            for sd in seeds:
+                sp = dict(pa=float(pa_), ratio=ratio)
+                bad, cls, detail = closed_loop(sd, 1, elongated=sp)
+                rep.validated_runs(1)
+                if bad:
+                    name = 'sampled-ridge' if cls == 'component-per-pixel-maximum' else 'sweep(pa=%d,ratio=%.1f,seed=%d)' % (pa_, ratio, sd)
+                    rep.finding('C01/K-closed-loop/%s:%s' % (name, cls), dict(seed=sd, special=sp), detail)
+    if thorough:
+        for sd in range(1000 * rep.seed, 1000 * rep.seed + 300):
+            bad, cls, detail = closed_loop(sd, 3)
+            rep.validated_runs(3)
+            if bad:
+                rep.finding('C01/K-closed-loop/random(seed=%d):%s' % (sd, cls), dict(seed=sd, trials=3), detail)
     rep.not_decided += ['the closed loop itself (optimiser convergence, island detection on the rendered image): exercised only by the noise-free replay oracle on a few random injections',
                         'noise case (within 5 reported standard errors)', 'internally estimated background/noise (BANE)', 'adequacy of the parameter bounds of estimate_lmfit_parinfo']
 
@@ -438,7 +462,7 @@ def replay(w):
     if w['witness'].get('elongated'):
         bad, cls, detail = closed_loop(int(w['witness'].get('seed', 5)), 1, elongated=tuple(w['witness']['elongated']))
         return bad, '%s: %s' % (cls, detail)
-    bad, cls, detail = closed_loop(int(w['witness'].get('seed', 3)), 4)
+    bad, cls, detail = closed_loop(int(w['witness'].get('seed', 3)), int(w['witness'].get('trials', 4)))
     return bad, '%s: %s' % (cls, detail)
 
 
